@@ -595,6 +595,58 @@ def run_cli_trickle(jobs, delay=0.25, release=False, timeout=60):
         return list(ex.map(one, jobs))
 
 
+def invocation_variants(rep, cls, jobs, rng, n=12):
+    """The way a command is invoked is no part of its result: for a sample of (argv, stdin) jobs, the same command with the
+    input given as a path instead of on stdin, with the output sent to a file (-o, where the subcommand has it), with
+    -q / -v / -vv, and with its option groups in reverse order must produce the bytes of the reference run (and its exit
+    status). Failures are reported under class `cls`."""
+    jobs = [j for j in jobs if j[1]]
+    jobs = rng.sample(jobs, min(n, len(jobs)))
+    d = os.path.join(WORK, "variants_%s" % rep.pid)
+    shutil.rmtree(d, ignore_errors=True)
+    os.makedirs(d, exist_ok=True)
+    ref = run_cli_many(jobs)
+    allj, meta = [], []
+    for k, ((argv, data), r) in enumerate(zip(jobs, ref)):
+        sub, opts = argv[0], list(argv[1:])
+        inp = os.path.join(d, "in_%d" % k)
+        open(inp, "wb").write(data)
+        # option groups: an option with its value(s) up to the next option
+        groups, cur = [], []
+        for a in opts:
+            if a.startswith("-") and not re.fullmatch(r"-?\d+(,-?\d+)*", a) and cur:
+                groups.append(cur); cur = []
+            cur.append(a)
+        if cur:
+            groups.append(cur)
+        rev = [x for g in reversed(groups) for x in g]
+        variants = [("input by path", [sub] + opts + [inp], b"", None), ("-q", [sub, "-q"] + opts, data, None), ("-v", [sub, "-v"] + opts, data, None),
+                    ("-vv", [sub, "-vv"] + opts, data, None), ("options reversed", [sub] + rev, data, None), ("path first, options after", [sub, inp] + rev, b"", None)]
+        if sub in ("view", "fold") and "-o" not in opts and "--output" not in opts:
+            outp = os.path.join(d, "out_%d" % k)
+            variants.append(("-o file", [sub] + opts + ["-o", outp], data, outp))
+            variants.append(("-o file, input by path", [sub, "--output", outp + "b"] + opts + [inp], b"", outp + "b"))
+        for name, av, din, outfile in variants:
+            allj.append((av, din)); meta.append((k, name, outfile))
+    res = run_cli_many(allj)
+    for (av, din), (k, name, outfile), (rc, so, se) in zip(allj, meta, res):
+        rrc, rso, _ = ref[k]
+        rep.count("invocation-variants", "%s: %s" % (name, " ".join(jobs[k][0])[:200]), True)
+        got = so
+        if outfile is not None and rc == 0:
+            try:
+                got = open(outfile, "rb").read()
+            except OSError:
+                got = b"<no output file>"
+            if so != b"":
+                got = b"<stdout not empty with -o> " + so[:100]
+        if is_panic(rc, se) or (rc == 0) != (rrc == 0) or (rrc == 0 and got != rso):
+            rep.fail(kind="property-oracle", cls=cls, case="%s: %s" % (name, " ".join(jobs[k][0])[:300]), argv=["sfs"] + av,
+                     stdin_hex=jobs[k][1].hex()[:200000], observed={"rc": rc, "output": got[:300].decode(errors="replace"), "stderr": se.decode(errors="replace")[-200:]},
+                     expected={"rc": rrc, "stdout": rso[:300].decode(errors="replace"), "reference": " ".join(jobs[k][0])[:200]},
+                     detail="the same command invoked as '%s' gives a different result than the reference invocation (input on stdin, output on stdout)" % name)
+
+
 def is_panic(rc, stderr):
     return rc == 101 or rc < 0 or b"panicked at" in stderr
 
